@@ -74,7 +74,10 @@ def start : VS := ⟨0, []⟩
 
 def StdWF (ts : List GTok) : Prop := runE stdStep start ts = .ok start
 def MsoWF (ts : List GTok) : Prop := runE msoStep start ts = .ok start
-def Visible (ts : List GTok) : Prop := ∃ s, runE visStep start ts = .ok s
+def isOk {ε α} : Except ε α → Bool
+  | .ok _ => true
+  | .error _ => false
+def Visible (ts : List GTok) : Prop := isOk (runE visStep start ts) = true
 
 /-- verdict for the harness: "ok" or the first failing clause -/
 def verdict (step : VS → GTok → Except String VS) (endErr : String) (ts : List GTok) (needEmpty : Bool) : String :=
